@@ -145,6 +145,40 @@ def apply_edit(root, e):
     return True
 
 
+def snapshot(r, wt, head_map):
+    """the three listings as they are now: HEAD's tree (constant), the index with, per entry, whether lstat still gives the
+    recorded signature (_stat_matches_entry), and the work tree: files and symlinks with the blob id of what they hold, and
+    directories standing where a tracked path is"""
+    from dulwich.index import _stat_matches_entry, blob_from_path_and_stat, cleanup_mode
+    root = os.fsencode(wt)
+    ix = r.open_index()
+    index = {}
+    for pb, e in ix.items():
+        fp = os.path.join(root, pb)
+        try:
+            st_ = os.lstat(fp)
+            same = (not stat.S_ISDIR(st_.st_mode)) and _stat_matches_entry(st_, e, True)
+        except OSError:
+            same = False
+        index[pb.hex()] = [cleanup_mode(e.mode), e.sha.decode(), same]
+    work = {}
+    for dp, dn, fn in os.walk(root):
+        if b".git" in dn:
+            dn.remove(b".git")
+        for n in fn + [d for d in dn if os.path.islink(os.path.join(dp, d))]:
+            fp = os.path.join(dp, n)
+            st_ = os.lstat(fp)
+            if not (stat.S_ISREG(st_.st_mode) or stat.S_ISLNK(st_.st_mode)):
+                continue
+            work[os.path.relpath(fp, root).hex()] = [cleanup_mode(st_.st_mode), blob_from_path_and_stat(fp, st_).id.decode(), False]
+        dn[:] = [d for d in dn if not os.path.islink(os.path.join(dp, d))]
+        for d in dn:
+            rel = os.path.relpath(os.path.join(dp, d), root)
+            if rel.hex() in index or rel.hex() in head_map:
+                work[rel.hex()] = [0o40000, "0" * 40, True]
+    return {"head": head_map, "index": index, "work": work}
+
+
 def session(req):
     base = tempfile.mkdtemp(prefix="verif-c18-", dir=os.environ.get("VERIF_SCRATCH") or None)
     try:
@@ -184,6 +218,14 @@ def session(req):
             g2 = subprocess.run(["git", "write-tree"], cwd=wt, env=GIT_ENV, capture_output=True)
             res["git_write_tree"] = g2.stdout.strip().decode() == trees[0].decode() if g.returncode == 0 and g2.returncode == 0 else (g.stderr + g2.stderr).decode("latin1")[:100]
             # ---- edits and staging, status after each
+            head_map = {}
+            try:
+                from dulwich.index import cleanup_mode as _cm
+                for ent in r.object_store.iter_tree_contents(trees[0]):
+                    head_map[ent.path.hex()] = [_cm(ent.mode), ent.sha.decode()]
+                res["snap0"] = snapshot(r, wt, head_map)
+            except Exception as ex:  # noqa: BLE001
+                res["snap0"] = {"exc": type(ex).__name__ + ":" + str(ex)[:80]}
             for e in req.get("edits", []):
                 step = {"edit": e}
                 try:
@@ -210,6 +252,10 @@ def session(req):
                     step["dulwich"] = dul_status(r)
                 except Exception as ex:  # noqa: BLE001
                     step["dulwich"] = {"exc": type(ex).__name__ + ":" + str(ex)[:80]}
+                try:
+                    step["snap"] = snapshot(r, wt, head_map)
+                except Exception as ex:  # noqa: BLE001
+                    step["snap"] = {"exc": type(ex).__name__ + ":" + str(ex)[:80]}
                 step["git"] = git_status(wt)
                 # where the two disagree about unstaged paths: what is really the case (work tree content and mode against
                 # the index entry, read directly) -- an index rewritten without smudging racily clean entries fools git
